@@ -354,4 +354,34 @@ def c09_11(c: Ctx) -> None:
     c01_6(c)
 
 
+def check_dispatch_entry_points(c: Ctx) -> None:
+    """Events enter a bus only through dispatch(): it is the only function that enqueues on the event queue / inserts into event_history / assigns event_parent_id,
+    so the lineage and child bookkeeping it performs cannot be bypassed by another entry point."""
+    d = c.unit(SVC, 'EventBus.dispatch')
+    owners = c.cg.owners_closure({d.key})
+    n = 0
+    for attr, hows in (('event_parent_id', ('assign',)), ('event_history', ('subscript', 'setitem', '__setitem__', 'assign@item', 'setdefault', 'update'))):
+        for w in c.cg.all_writes(attr):
+            if w.unit.module not in (SVC, MOD) or w.unit.name == '__init__':
+                continue
+            if attr == 'event_history' and not (w.how in hows or (w.how.startswith('assign') and isinstance(w.node, ast.Assign) and isinstance(w.node.targets[0], ast.Subscript))):
+                continue
+            n += 1
+            if w.unit.key in owners:
+                c.ok(where(w.unit, w.node), f'{attr} written by dispatch ({w.how})')
+            else:
+                c.fail(w.unit, f'{w.unit.qualname} writes {attr}: {q.stmt_text(q.stmt_of(w.node), 60)}', f'an event enters a bus (history / lineage) through {w.unit.qualname} instead of dispatch(): the parent / child '
+                       'bookkeeping of dispatch is bypassed', node=w.node)
+    if n == 0:
+        raise AnalysisError('no write of event_parent_id / event_history found')
+
+
+@ob('C09.12', 'CTX', 'code that runs later than the handler that started it (a task, a callback scheduled with call_later / call_soon / add_done_callback) and dispatches or processes events '
+    'does not inherit that handler\'s context (same obligation as C06.3): otherwise what it dispatches is attributed to an event whose handler has long finished')
+def c09_12(c: Ctx) -> None:
+    from .c06 import c06_3
+
+    c06_3(c)
+
+
 OBLIGATIONS = ob.obs
